@@ -15,6 +15,8 @@ import random
 from .. import gen, harness, oracles
 from ..world import SimWorld
 
+EVAL_COUNTER = "subruns"
+EVAL_UNIT = "one traced Pipeline.process call under one TZ (fault-free, failing or stalled sub-run)"
 LEVEL = "exploration"
 RULE = ("seeded base pipelines (every parameter placement: node / initial context / produced by an earlier node / "
         "default / default-overridden-by-context) x TZ in {UTC, +09:00, -08:00, +05:45} x detail levels; per TZ the "
